@@ -380,6 +380,15 @@ def builtin (f : Name) (args : List (V ω)) (kw : List (Name × V ω)) : Option 
       else if o = sBig ∧ sg = false then some (.ok (.int (fromBE b : Int)))
       else some (raiseX xUnsupported)
     | _, _, _ => some (raiseX xUnsupported)
+  else if f = fIsinstance then
+    -- `isinstance(x, T)` for a built-in type given by name
+    match args, kw with
+    | [v, .str t], [] =>
+      if t = tStr then some (.ok (.bool (match v with | .str _ => true | .ostr => true | .py (.str _) => true | _ => false)))
+      else if t = tInt then some (.ok (.bool (match v with | .int _ => true | .bool _ => true | _ => false)))
+      else if t = tBytes then some (.ok (.bool (match v with | .bytes _ => true | _ => false)))
+      else some (raiseX xUnsupported)
+    | _, _ => some (raiseX xUnsupported)
   else if f = fInt then
     match args, kw with
     | [.hex b, .int 16], [] => some (if b.isEmpty then raiseX xValueError else .ok (.int (fromBE b : Int)))
@@ -898,7 +907,7 @@ attribute [pyeval] execS_expr execS_assign execS_assignT execS_aug execS_setAttr
   Bool.not_true Bool.not_false Int.cast_ofNat_Int
   evalE evalEs evalCond setVar getVar getVar_setVar_same getVar_setVar_ne bindT binOp binInt asInt? cmpOp cmpOrd pyEq memTuple isNone truthy indexOp sliceOp boundOf pySlice_nonneg pySlice_tail2 pySlice_to_tail2
   builtin builtinMethod iterOf excCls kwArg normBound_nat normBound_nonneg normBound_none normBound_len_sub2
-  fLen fBytes fInt fIntFromBytes mHex kByteorder kSigned sLittle sBig
+  fLen fBytes fInt fIntFromBytes fIsinstance tStr tInt tBytes mHex kByteorder kSigned sLittle sBig
   List.zip_cons_cons List.zip_nil_right List.zip_nil_left List.contains_cons List.contains_nil
   xEOFError xTypeError xValueError xKeyError xStopIteration xUBXParseError xUBXMessageError xUBXTypeError xUBXStreamError
   or_false false_or or_self or_true true_or and_true true_and and_false false_and raiseX ne_eq not_false_eq_true not_true_eq_false
